@@ -286,6 +286,15 @@ def twin_groups(ctx, n):
     for _ in range(n):
         proto = rng.choice(["sdp", "scp", "scp"])
         base = gen_packet(rng, False)
+        r = rng.random()
+        if r < 0.3:
+            # what the host actually sends: the constructors' default source (port 7, core 31), often chip (0, 0)
+            base.update(src_port=7, src_cpu=31)
+            if rng.random() < 0.5:
+                base.update(src_x=0, src_y=0)
+        elif r < 0.45:
+            # what a monitor core answers: default-looking destination, any source
+            base.update(dest_port=7, dest_cpu=31, dest_x=0, dest_y=0)
         fields = SDP_FIELDS + ["reply", "data"] + (["cmd_rc", "seq", "arg1", "arg2", "arg3"] if proto == "scp" else [])
         group = [base]
         for f in rng.sample(fields, rng.randrange(2, 6)):
@@ -318,7 +327,7 @@ def eval_twins(ctx, groups):
     i = 0
     for g in groups:
         scp = g["proto"] == "scp"
-        bad = None
+        bad = bad_enc = None
         for q in g["twins"]:
             bs = lay[i]
             i += 1
@@ -328,8 +337,17 @@ def eval_twins(ctx, groups):
             ctx.traces += 1
             if back.get("ok") != want and bad is None:
                 bad = (q, back)
+            # ... and ENCODED by the implementation in the same process, after its twins: the bytes must be the
+            # documented layout of THIS packet (nothing remembered from a packet that differs in one field)
+            enc = impl_encode(g["proto"], q)
+            if enc.get("ok") != bs and bad_enc is None and isinstance(bs, list):
+                bad_enc = (q, enc, bs)
         ctx.tag("twin_group_" + g["proto"])
         ctx.case(g, True)
+        if bad_enc is not None:
+            ctx.violation("layout-%s" % g["proto"],
+                          "encoding %r (after encoding packets equal to it in all fields but one, in the same process) "
+                          "gave %r, the documented layout is %r" % bad_enc, g)
         if bad is not None:
             ctx.violation("decode-of-layout-%s" % g["proto"],
                           "decoding the documented layout of %r (after decoding packets equal to it in all fields "
